@@ -510,6 +510,14 @@ func (c *Ctx) partialSites(rule string, closures []string) ([]partialSite, int) 
 						}
 					}
 				}
+				// a closure returned by an iterator constructor: the captured parameter has the kinds the constructor's callers pass
+				if !ks.SubsetOf(allowed) && fn.Parent() != nil && !strings.Contains(fn.Synthetic, "range-over-func") {
+					if ld, ok := recv.(*ssa.UnOp); ok && ld.Op == token.MUL {
+						if cell := resolveCell(ld.X); cell != nil && cell.Parent() != fn {
+							ks &= c.closureArgKinds(fn, recv, i)
+						}
+					}
+				}
 				out = append(out, partialSite{fn: fn, call: i, op: op, recv: recv, allowed: allowed, got: ks, param: p})
 			})
 		}
